@@ -114,6 +114,10 @@ def run_verus_unit(name, tier, seed, extra_args=()):
         res['undecided'].append('weave: %s' % e)
         return res
     text = u.text()
+    # functions whose proof anchors are lost but whose total variant (R20) is still woven: the unit is undecided unless something in it fails
+    for lost_ in getattr(u, 'lost', []):
+        res['status'] = 'undecided'
+        res['undecided'].append('weave (function rendered as its contract only; its total variant still decides): %s' % lost_)
     os.makedirs(BUILD, exist_ok=True)
     # runs with extra solver options (seed retries, thorough tier) get their own file: they run in parallel with each other
     tag = ''.join(ch for ch in '_'.join(extra_args) if ch.isalnum())[-24:]
